@@ -193,6 +193,45 @@ func buildApp(a *App, o *Obs, setEnv *[]string) (*cli.Cli, map[int]*recs, func(c
 		app.Version(a.Root.VersionOptNames(), "ver-1.2.3")
 	}
 	all := map[int]*recs{}
+	var mkHook func(t *Cmd, tag string, b Beh, snapshot bool) func()
+	mkHook = func(t *Cmd, tag string, b Beh, snapshot bool) func() {
+		id := t.ID
+		if b.Kind == BehAbsent {
+			return nil
+		}
+		name := fmt.Sprintf("%s%d", tag, id)
+		return func() {
+			o.Events = append(o.Events, name)
+			if snapshot {
+				o.Ran++
+				o.snapshot(a, all)
+				if t.InAction != nil {
+					t.InAction()
+				}
+			}
+			switch b.Kind {
+			case BehPanic:
+				switch b.PanKind {
+				case 1:
+					e := fmt.Errorf("error raised by %s", name)
+					o.PanVals[name] = e
+					panic(e)
+				case 2:
+					o.PanVals[name] = RuntimeErrorMarker
+					var m map[string]int
+					m[name] = 1 // runtime error: assignment to entry in nil map
+				case 3:
+					o.PanVals[name] = "string raised by " + name
+					panic("string raised by " + name)
+				}
+				pv := &PanicValue{Hook: name}
+				o.PanVals[name] = pv
+				panic(pv)
+			case BehExit:
+				cli.Exit(b.Code)
+			}
+		}
+	}
 	var build func(c *cli.Cmd, t *Cmd)
 	build = func(c *cli.Cmd, t *Cmd) {
 		if t.Policy != nil {
@@ -214,21 +253,47 @@ func buildApp(a *App, o *Obs, setEnv *[]string) (*cli.Cli, map[int]*recs, func(c
 				rs.sbo[od] = sb
 				name := strings.Join(od.Names, " ")
 				if a.Builtin {
+					ptr := (t.ID+i)%2 == 1 // every other declaration goes through the *Ptr entry point
 					switch {
 					case od.Int && od.Multi:
-						p := c.Ints(cli.IntsOpt{Name: name, EnvVar: env, SetByUser: sb})
+						p := new([]int)
+						if ptr {
+							c.IntsPtr(p, cli.IntsOpt{Name: name, EnvVar: env, SetByUser: sb})
+						} else {
+							p = c.Ints(cli.IntsOpt{Name: name, EnvVar: env, SetByUser: sb})
+						}
 						rs.bo[od] = func() []string { return intsStr(*p) }
 					case od.Int:
-						p := c.Int(cli.IntOpt{Name: name, EnvVar: env, SetByUser: sb})
+						p := new(int)
+						if ptr {
+							c.IntPtr(p, cli.IntOpt{Name: name, EnvVar: env, SetByUser: sb})
+						} else {
+							p = c.Int(cli.IntOpt{Name: name, EnvVar: env, SetByUser: sb})
+						}
 						rs.bo[od] = func() []string { return []string{fmt.Sprint(*p)} }
 					case od.Flag:
-						p := c.Bool(cli.BoolOpt{Name: name, EnvVar: env, SetByUser: sb})
+						p := new(bool)
+						if ptr {
+							c.BoolPtr(p, cli.BoolOpt{Name: name, EnvVar: env, SetByUser: sb})
+						} else {
+							p = c.Bool(cli.BoolOpt{Name: name, EnvVar: env, SetByUser: sb})
+						}
 						rs.bo[od] = func() []string { return []string{fmt.Sprint(*p)} }
 					case od.Multi:
-						p := c.Strings(cli.StringsOpt{Name: name, EnvVar: env, SetByUser: sb})
+						p := new([]string)
+						if ptr {
+							c.StringsPtr(p, cli.StringsOpt{Name: name, EnvVar: env, SetByUser: sb})
+						} else {
+							p = c.Strings(cli.StringsOpt{Name: name, EnvVar: env, SetByUser: sb})
+						}
 						rs.bo[od] = func() []string { return append([]string{}, *p...) }
 					default:
-						p := c.String(cli.StringOpt{Name: name, EnvVar: env, SetByUser: sb})
+						p := new(string)
+						if ptr {
+							c.StringPtr(p, cli.StringOpt{Name: name, EnvVar: env, SetByUser: sb})
+						} else {
+							p = c.String(cli.StringOpt{Name: name, EnvVar: env, SetByUser: sb})
+						}
 						rs.bo[od] = func() []string { return []string{*p} }
 					}
 					continue
@@ -282,49 +347,19 @@ func buildApp(a *App, o *Obs, setEnv *[]string) (*cli.Cli, map[int]*recs, func(c
 		c.Spec = t.Prog.Spec
 		c.LongDesc = t.LongDesc
 		c.Hidden = t.Hidden
-		id := t.ID
-		hook := func(tag string, b Beh, snapshot bool) func() {
-			if b.Kind == BehAbsent {
-				return nil
-			}
-			name := fmt.Sprintf("%s%d", tag, id)
-			return func() {
-				o.Events = append(o.Events, name)
-				if snapshot {
-					o.Ran++
-					o.snapshot(a, all)
-					if t.InAction != nil {
-						t.InAction()
-					}
-				}
-				switch b.Kind {
-				case BehPanic:
-					switch b.PanKind {
-					case 1:
-						e := fmt.Errorf("error raised by %s", name)
-						o.PanVals[name] = e
-						panic(e)
-					case 2:
-						o.PanVals[name] = RuntimeErrorMarker
-						var m map[string]int
-						m[name] = 1 // runtime error: assignment to entry in nil map
-					case 3:
-						o.PanVals[name] = "string raised by " + name
-						panic("string raised by " + name)
-					}
-					pv := &PanicValue{Hook: name}
-					o.PanVals[name] = pv
-					panic(pv)
-				case BehExit:
-					cli.Exit(b.Code)
-				}
-			}
-		}
+		hook := func(tag string, b Beh, snapshot bool) func() { return mkHook(t, tag, b, snapshot) }
 		c.Before = hook("B", t.Before, false)
 		c.Action = hook("ACT", t.Action, true)
 		c.After = hook("A", t.After, false)
 		for _, k := range t.Kids {
 			k := k
+			if k.Prog != nil && len(k.Prog.Opts)+len(k.Prog.Args) == 0 && k.Prog.Spec == "" && len(k.Kids) == 0 && k.Before.Kind == BehAbsent &&
+				k.After.Kind == BehAbsent && k.Action.Kind != BehAbsent && k.Policy == nil && k.LongDesc == "" && !k.Hidden {
+				// a bare leaf: declared through the ActionCommand helper
+				all[k.ID] = &recs{o: map[*OptDecl]*Rec{}, a: map[*ArgDecl]*Rec{}, sbo: map[*OptDecl]*bool{}, sba: map[*ArgDecl]*bool{}, bo: map[*OptDecl]func() []string{}, ba: map[*ArgDecl]func() []string{}}
+				c.Command(strings.Join(k.Aliases, " "), "d", cli.ActionCommand(mkHook(k, "ACT", k.Action, true)))
+				continue
+			}
 			c.Command(strings.Join(k.Aliases, " "), "d", func(sc *cli.Cmd) { build(sc, k) })
 		}
 	}
